@@ -18,6 +18,11 @@ RULE = ('random document recipes (1-3 changes x 1-3 files, optional '
         'the recipe by the spec serializer. Non-trivial = the document has '
         '>= 2 content sections or a non-UTF-8 effective encoding; distinct = '
         'fingerprint of the whole recipe.')
+RULE += (
+         ' Also: sections of 9 MiB (thorough: 8 MiB+1 .. 33 MiB+1, 9 MiB '
+         'preambles in utf-8 / utf-16) followed by further sections. Process'
+         ' axes (DESIGN 2.8): 2 of 16 shards run under python -O, 4 of 16 '
+         'after a hostile warm-up of the library.')
 FLOOR = {'quick': 2000, 'thorough': 50000}
 REQUIRED_REACH = ['reader.py:', 'writer.py:']
 ASSUMPTIONS = [
